@@ -185,6 +185,8 @@ class FaultPlan:
         if err.startswith('SamtoolsError'):
             import pysam
             raise pysam.SamtoolsError(f'injected failure of {seam} (call {n})')
+        if err == 'MemoryError':      # a failing allocation
+            raise MemoryError(f'injected allocation failure at {seam} call {n}')
         code = getattr(errno, err.split(':')[1]) if ':' in err else errno.EIO
         raise OSError(code, os.strerror(code) + f' (injected at {seam} call {n})')
 
